@@ -238,4 +238,25 @@ func init() {
 			{Name: "VxC26Child", Pkg: "github.com/goplus/xgo/cmd/internal/gopfmt", Files: []string{"c26/c26.go"}, Quick: map[string]int{}, NoCrossVal: true},
 		},
 	})
+
+	// ---------------------------------------------------------------- C38
+	jsonOv := map[string]string{"encoding/json.Marshal": "vxMarshal", "encoding/json.Unmarshal": "vxUnmarshal"}
+	register(&checkSpec{
+		ID:   "C38",
+		Rule: "Stream/MODE=0: up to M messages (one representative per kind) written by headerWriter.Write and read back by headerReader.Read through a reader that cuts the byte stream at two symbolic positions, payload padding bytes symbolic; Stream/MODE=1: one message over the full variety (kind, int64/string ID incl. 2^53 boundary values, params, error codes) through the real EncodeMessage/DecodeMessage; Malformed: concrete frame P (9 frames) around a window of <= N symbolic bytes into headerReader.Read",
+		Assumptions: []string{
+			"encoding/json is replaced in the symbolic run by its contract on wireCombined (omitempty, numbers decode into `any` as float64); natively (replay, cross-validation) the real encoding/json runs",
+			"the reader under test receives the stream in at most three pieces (two symbolic cut points); payload bytes beyond the 2-byte tag are symbolic",
+			"bound: M messages, PAD padding bytes, N window bytes; Content-Length values of at most N+1 digits",
+			"open known finding assumed away: int64 IDs that do not survive the float64 coercion (KF_FLOATID)",
+		},
+		Harnesses: []harnessSpec{
+			{Name: "VxC38Stream", Pkg: "github.com/goplus/xgo/x/jsonrpc2", Files: []string{"c38/c38.go"}, Overrides: jsonOv,
+				Quick: map[string]int{"M": 2, "PAD": 2, "MODE": 0, "KF_FLOATID": 0}, Thorough: map[string]int{"M": 3, "PAD": 2, "MODE": 0, "KF_FLOATID": 0}, MaxSteps: 3_000_000},
+			{Name: "VxC38Stream", Pkg: "github.com/goplus/xgo/x/jsonrpc2", Files: []string{"c38/c38.go"}, Overrides: jsonOv,
+				Quick: map[string]int{"M": 1, "PAD": 1, "MODE": 1, "KF_FLOATID": 0}, MaxSteps: 3_000_000},
+			{Name: "VxC38Malformed", Pkg: "github.com/goplus/xgo/x/jsonrpc2", Files: []string{"c38/c38.go"}, Overrides: jsonOv,
+				Quick: map[string]int{"N": 2}, Thorough: map[string]int{"N": 3}, Variants: c15Variants(9), MaxSteps: 3_000_000},
+		},
+	})
 }
